@@ -166,12 +166,26 @@ def check(ctx):
         else:
             ctx.fail('C15.2', ctx.site(tw_), 'tree walk recurses into %s %d times (expected once)' % (k, len(ss)), key='C15.2|cover|' + k)
     atoms = find_terms(tw_, ttb, lambda x: x[0] == 'call' and call_name(x) == 'is_node' and strip_sites(x[2][0]) == P1)
-    if len(tvcs) != 1 or len(atoms) != 1:
-        ctx.fail('C15.2', ctx.site(tw_), 'tree walk: %d visitor calls, %d is_node(self) tests (expected 1 and 1)' % (len(tvcs), len(atoms)), key='C15.2|visit')
+    datoms = find_terms(tw_, ttb, lambda x: x[0] == 'discr' and m_call(x[1], name='case', self_suffix='Envelope') is not None and strip_sites(m_call(x[1], name='case', self_suffix='Envelope')[0]) == P1)
+    if len(tvcs) != 1 or (len(atoms) != 1 and len(datoms) != 1):
+        ctx.fail('C15.2', ctx.site(tw_), 'tree walk: %d visitor calls, %d is_node(self) / case(self) tests (expected 1 and 1)' % (len(tvcs), len(atoms) + len(datoms)), key='C15.2|visit')
     else:
         vb = tvcs[0][0]
-        t_node = vb in reach_under(tw_, ttb, {atoms[0]: True})
-        t_other = vb in reach_under(tw_, ttb, {atoms[0]: False})
+        variants_ = adt_variants(F, CASE)
+        def env_for(node):
+            e = {}
+            if len(atoms) == 1:
+                e[atoms[0]] = node
+            return e
+        if len(datoms) == 1:
+            # "is a node" asked through the case discriminant (`let EnvelopeCase::Node {..} = self.case() else {..}`)
+            nidx = variants_.index('Node')
+            t_node = vb in reach_under(tw_, ttb, dict(env_for(True), **{}) | {datoms[0]: nidx})
+            t_other = any(vb in reach_under(tw_, ttb, env_for(False) | {datoms[0]: i}) for i in range(len(variants_)) if i != nidx) \
+                and all(vb in reach_under(tw_, ttb, env_for(False) | {datoms[0]: i}) for i in range(len(variants_)) if i != nidx)
+        else:
+            t_node = vb in reach_under(tw_, ttb, {atoms[0]: True})
+            t_other = vb in reach_under(tw_, ttb, {atoms[0]: False})
         if (t_node, t_other) == (False, True):
             ctx.ok('C15.2', ctx.site(tw_, vb), 'tree walk visits an element iff it is not a node')
         else:
@@ -316,6 +330,7 @@ def check(ctx):
             return a is not None and a[0] == P1 and a[1] == P2
         empt = find_terms(b, tb_, lambda x: x[0] == 'call' and call_name(x) == 'is_empty' and is_V(x[2][0]))
         lens = find_terms(b, tb_, lambda x: (x[0] == 'call' and call_name(x) == 'len' and is_V(x[2][0])) or (x[0] == 'len' and is_V(x[1])))
+        Vs = find_terms(b, tb_, lambda x: is_V(x))
         rows = {}
         for n in (0, 1, 2, 3):
             env = {}
@@ -323,6 +338,8 @@ def check(ctx):
                 env[e] = (n == 0)
             for l in lens:
                 env[l] = n
+            for v_ in Vs:
+                env[('len', v_)] = n
             reach = reach_under(b, tb_, env)
             outs = []
             for bi, si, t in ret_defs(tb_):
